@@ -470,4 +470,17 @@ theorem fastDilate_eq (Ny Nx : Nat) (data : Array Int) (By Bx : Nat) (bc : Array
     rw [getD_eq_getElem _ i h1, getD_eq_getElem _ i h2] at this
     exact this
 
+/-- empty image: both kernels return the empty array -/
+theorem fastDilate_eq_empty (Ny Nx : Nat) (data : Array Int) (bshape : List Nat) (bc : Array Int)
+    (hz : shapeSize [Ny, Nx] = 0) (hdata : data.size = shapeSize [Ny, Nx]) :
+    fastDilate ⟨[Ny, Nx], data⟩ bshape bc =
+      dilateModel dtBool ⟨[Ny, Nx], data⟩ (support bshape bc true) := by
+  have hd : data = #[] := Array.eq_empty_of_size_eq_zero (by rw [hdata, hz])
+  subst hd
+  have hal : allPos [Ny, Nx] = [] := by unfold allPos; rw [hz]; rfl
+  rw [fastDilate_unfold]
+  unfold dilateModel
+  simp only [hal, List.foldl_nil, Img.size, hz]
+  split <;> rfl
+
 end Mahotas.C01
